@@ -23,6 +23,7 @@ def run(ctx, broken):
         entries.append("%s %s || %s" % (mode, lab, src))
     budget = 150 if ctx.tier == "quick" else 8064
     lines = r.emit("emitv", entries, ctx.seed, budget)
+    challenge_correspondence(ctx, lines)
     lines += shifted_openings(ctx, lines)
     lines += unbound_key_commitments(ctx, lines)
     lines += compensated_public_inputs(ctx, lines)
